@@ -876,7 +876,7 @@ impl<'a> Serialize for WrappedSelector<'a> {
                     dataset.get(*data_handle);
                 let data = data.map_err(serde::ser::Error::custom)?;
                 let mut state = serializer.serialize_struct("Selector", 3)?;
-                state.serialize_field("@type", "DataKeySelector")?;
+                state.serialize_field("@type", "AnnotationDataSelector")?;
                 if let Some(id) = dataset.id() {
                     state.serialize_field("annotationset", &id)?;
                 } else {
@@ -885,7 +885,7 @@ impl<'a> Serialize for WrappedSelector<'a> {
                 if let Some(id) = data.id() {
                     state.serialize_field("data", &id)?;
                 } else {
-                    state.serialize_field("data", &dataset.temp_id().map_err(serde::ser::Error::custom)?)?;
+                    state.serialize_field("data", &data.temp_id().map_err(serde::ser::Error::custom)?)?;
                 }
                 state.end()
             }
